@@ -744,6 +744,8 @@ class Interp:
                 src = place_str(init)
                 if src and cond:
                     env.upd(src, some=True)
+                if cond and path.endswith("::Some"):
+                    self.strip_chain_facts(init, env)
                 self.bind_let(inner, init, env, cond)
         elif k == "ptup":
             ps_ = pat.get("pats") or []
@@ -762,6 +764,48 @@ class Interp:
                     env.f[ps_[0]["name"]] = Facts_(ascii=bf.ascii)
         elif k == "pref":
             self.bind_let(pat.get("pat"), init, env, cond)
+
+    def strip_chain_facts(self, init, env):
+        """`S.strip_prefix(a)[.and_then(|r| r.strip_prefix(b))..]` is Some: S begins with an `a` then a `b`.
+        Each step is an ASCII literal (its length is known) or an ASCII char predicate (one byte)."""
+        x = peel(init)
+        steps = []
+        while isinstance(x, dict) and x.get("k") == "mcall" and x.get("m") == "and_then" and len(x.get("args") or []) == 1:
+            cl = x["args"][0]
+            if not (isinstance(cl, dict) and cl.get("k") == "closure" and len(cl.get("params") or []) == 1):
+                return
+            b_ = cl.get("body")
+            while isinstance(b_, dict) and b_.get("k") == "block" and not b_.get("stmts"):
+                b_ = b_.get("expr")
+            q = cl["params"][0]
+            while isinstance(q, dict) and q.get("k") == "pref":
+                q = q.get("pat")
+            r_ = peel(b_.get("recv")) if isinstance(b_, dict) and b_.get("k") == "mcall" else None
+            if not (isinstance(b_, dict) and b_.get("m") == "strip_prefix" and isinstance(r_, dict) and
+                    r_.get("k") == "local" and isinstance(q, dict) and r_.get("id") == q.get("id")):
+                return
+            steps.insert(0, (b_.get("args") or [None])[0])
+            x = peel(x["recv"])
+        if not (isinstance(x, dict) and x.get("k") == "mcall" and x.get("m") == "strip_prefix" and is_str_ty(x.get("rt"))):
+            return
+        base = place_str(x["recv"])
+        if not base:
+            return
+        steps.insert(0, (x.get("args") or [None])[0])
+        off = 0
+        for a in steps:
+            v = lit_val(peel(a))
+            if isinstance(v, str) and v and all(ord(ch) < 128 for ch in v):
+                for ch in v:
+                    env.upd("%s#%d" % (base, off), ascii=True, digits=ch.isdigit())
+                    off += 1
+            elif self.closure_ascii_only(a):
+                env.upd("%s#%d" % (base, off), ascii=True, digits=self.closure_digits_only(a))
+                off += 1
+            else:
+                break
+            env.upd(base, minlen=off)
+            env.prefix.setdefault(base, set()).add(off)
 
     def ci_base(self, init, env):
         """base place if init is `<char_indices iterator>.next()`"""
@@ -1093,7 +1137,7 @@ class Interp:
                 isinstance(lit_val(peel((n.get("args") or [None])[0])), int):
             # s.split_at(k) with a constant k panics exactly when &s[..k] does
             a = (n.get("args") or [None])[0]
-            self.index_site({"k": "index", "ln": n.get("ln"), "e": n["recv"], "bt": n.get("rt"),
+            self.index_site({"k": "index", "ln": n.get("ln"), "e": n["recv"], "bt": n.get("rt"), "at": n,
                              "i": {"k": "struct", "path": "std::ops::RangeTo", "t": "std::ops::RangeTo<usize>",
                                    "fields": [{"name": "end", "e": a}]}}, env)
         elif k == "mcall" and n.get("m") in ("split_at", "split_at_mut") and is_str_ty(n.get("rt")):
@@ -1244,7 +1288,7 @@ class Interp:
                 rng = rng.get("e")
             if isinstance(rng, dict) and rng.get("k") == "struct" and "Range" in (rng.get("path") or rng.get("t") or ""):
                 self.index_site({"k": "index", "ln": n.get("ln"), "e": g0["recv"], "i": rng,
-                                 "bt": g0.get("rt")}, env)
+                                 "bt": g0.get("rt"), "at": n}, env)
                 return
         text = "%s.%s()" % (expr_text(recv), n["m"])
         rp = place_str(recv)
